@@ -96,7 +96,11 @@ def build(n, edges, kinds, parents=None):
         cd = ObjectClassDict()
         cd["own%d" % i if parents else "own"] = Property(String())
         base = Object if not parents or parents[i] is None else classes[parents[i]]
-        classes.append(ObjectMeta("K%d" % i, (base,), cd))
+        # created under one common name and renamed afterwards, the way the parser keeps same-titled models apart
+        # (the class keeps its creation-time __qualname__; the name that counts is __name__)
+        cls = ObjectMeta("K", (base,), cd)
+        cls.__name__ = "K%d" % i
+        classes.append(cls)
     per_src = {}
     for (i, j), k in zip(edges, kinds):
         per_src.setdefault(i, []).append((k, classes[j]))
